@@ -1,3 +1,393 @@
-(* C41 model: placeholder until the service model is written *)
+(* C41: the life cycle of fuel-core-services' ServiceRunner
+     crates/services/src/service.rs  (start / stop / _await_stop / _await_start_or_stop,
+                                      initialize_loop, run, run_task, shutdown_task)
+     crates/services/src/state.rs    (State)
+   as interleavings of atomic steps on the tokio watch cell.
+
+   Threads of the model: client calls (start, stop), the background task B spawned by
+   initialize_loop, and awaiters (await_stop / await_start_or_stop futures).  The user task's
+   into_task / run / shutdown have SCRIPTED outcomes; each of the three calls first passes a
+   gate (a permit granted by the environment, op OGrant), which stands for "the call takes
+   time and then returns".  RWaitStop is a run() that awaits StateWatcher::while_started and
+   then returns Continue.  tokio's watch is modelled by the cell value and a version counter;
+   B's two waits on the watch are modelled by their wake-up condition (cell <> NotStarted for
+   the changed() in run, cell <> Started for while_started), which is equivalent because the
+   cell never returns to an earlier state.  Executable definitions only. *)
 From FC Require Export Common.T.
-Definition main41 (input observed : T) : T := tErr 41.
+
+Inductive sstate := NotStarted | Starting | Started | Stopping | Stopped | StoppedWithError.
+
+Definition sstate_eqb (a b : sstate) : bool :=
+  match a, b with
+  | NotStarted, NotStarted | Starting, Starting | Started, Started
+  | Stopping, Stopping | Stopped, Stopped | StoppedWithError, StoppedWithError => true
+  | _, _ => false
+  end.
+
+Definition stopped (s : sstate) : bool :=
+  match s with Stopped | StoppedWithError => true | _ => false end.
+
+Definition srank (s : sstate) : nat :=
+  match s with
+  | NotStarted => 0 | Starting => 1 | Started => 2 | Stopping => 3
+  | Stopped => 4 | StoppedWithError => 4
+  end.
+
+(* "moves forward": unchanged, or strictly later in
+   NotStarted < Starting < Started < Stopping < {Stopped, StoppedWithError} *)
+Definition fwdb (a b : sstate) : bool := sstate_eqb a b || Nat.ltb (srank a) (srank b).
+
+(* program counter of the background task *)
+Inductive bpc :=
+| BInit         (* run: state.borrow_and_update().not_started() ?                              *)
+| BWaitStart    (* run: state.changed().await                                                  *)
+| BCheckStart   (* run: if !state.borrow().starting() { return }                               *)
+| BGateInto     (* run: service.into_task(..).await   (Err => panic)                           *)
+| BSetStarted   (* run: send_if_modified(starting -> Started)                                  *)
+| BLoopHead     (* run_task: while state.borrow_and_update().started()                         *)
+| BGateRun      (* run_task: task.run(&mut state).catch_unwind().await                         *)
+| BRunWait      (* inside a scripted run(): watcher.while_started().await                      *)
+| BGateShut     (* shutdown_task: task.shutdown().catch_unwind().await                         *)
+| BResume       (* run: if let Some(panic) = got_panic { resume_unwind }                       *)
+| BFinal        (* initialize_loop: send_if_modified(!stopped -> Stopped | StoppedWithError)   *)
+| BDone.
+
+Inductive ioutcome := IOk | IErr | IPanic.
+Inductive routcome := RContinue | RStop | RErrorContinue | RPanic | RWaitStop.
+Inductive soutcome := SOk | SErr | SPanic.
+
+(* result of one atomic step of B on the finite control state *)
+Record bres := mkB { b_cell : sstate; b_pc : bpc; b_gp : bool;
+                     b_used : bool;              (* a permit was consumed *)
+                     b_into : bool; b_run : bool; b_shut : bool   (* which user function was called *) }.
+
+Definition bstep (cell : sstate) (pc : bpc) (gp permit : bool)
+                 (io : ioutcome) (ro : routcome) (so : soutcome) : bres :=
+  let stay := mkB cell pc gp false false false false in
+  let goto p := mkB cell p gp false false false false in
+  match pc with
+  | BInit => if sstate_eqb cell NotStarted then goto BWaitStart else goto BCheckStart
+  | BWaitStart => if sstate_eqb cell NotStarted then stay else goto BCheckStart
+  | BCheckStart => if sstate_eqb cell Starting then goto BGateInto else goto BFinal
+  | BGateInto =>
+      if permit then
+        match io with
+        | IOk => mkB cell BSetStarted gp true true false false
+        | IErr | IPanic => mkB cell BFinal true true true false false
+        end
+      else stay
+  | BSetStarted =>
+      mkB (if sstate_eqb cell Starting then Started else cell) BLoopHead gp false false false false
+  | BLoopHead => if sstate_eqb cell Started then goto BGateRun else goto BGateShut
+  | BGateRun =>
+      if permit then
+        match ro with
+        | RContinue | RErrorContinue => mkB cell BLoopHead gp true false true false
+        | RStop => mkB cell BGateShut gp true false true false
+        | RPanic => mkB cell BGateShut true true false true false
+        | RWaitStop => mkB cell BRunWait gp true false true false
+        end
+      else stay
+  | BRunWait => if sstate_eqb cell Started then stay else goto BLoopHead
+  | BGateShut =>
+      if permit then
+        match so with
+        | SOk | SErr => mkB cell BResume gp true false false true
+        | SPanic => mkB cell BResume true true false false true
+        end
+      else stay
+  | BResume => goto BFinal
+  | BFinal =>
+      mkB (if stopped cell then cell else if gp then StoppedWithError else Stopped)
+          BDone gp false false false false
+  | BDone => stay
+  end.
+
+(* awaiters *)
+Inductive akind := AStop | AStartOrStop.
+Inductive apc := ACheck | AWaitChg | ADone (r : sstate).
+Record awaiter := mkA { a_kind : akind; a_pc : apc; a_seen : nat }.
+
+Definition acond (k : akind) (c : sstate) : bool :=
+  match k with AStop => stopped c | AStartOrStop => negb (sstate_eqb c Starting) end.
+
+Definition astep (cell : sstate) (ver : nat) (a : awaiter) : awaiter :=
+  match a_pc a with
+  | ACheck => if acond (a_kind a) cell then mkA (a_kind a) (ADone cell) (a_seen a)
+              else mkA (a_kind a) AWaitChg (a_seen a)
+  | AWaitChg => if Nat.eqb ver (a_seen a) then a else mkA (a_kind a) ACheck ver
+  | ADone _ => a
+  end.
+
+Record sys := mkSys {
+  cell : sstate; ver : nat; pc : bpc; gp : bool; permits : nat;
+  iscript : ioutcome; rscript : list routcome; sscript : soutcome;
+  n_into : nat; n_run : nat; n_shut : nat;
+  aws : list awaiter }.
+
+Inductive op := OStart | OStop | OGrant | OBg | OSpawn (k : akind) | OAw (i : nat).
+
+Fixpoint set_nth41 {A} (l : list A) (i : nat) (x : A) : list A :=
+  match l, i with
+  | [], _ => []
+  | _ :: r, O => x :: r
+  | y :: r, S i' => y :: set_nth41 r i' x
+  end.
+
+Definition bool_nat (b : bool) : nat := if b then 1%nat else 0%nat.
+
+Definition step41 (s : sys) (o : op) : sys :=
+  match o with
+  | OStart =>
+      if sstate_eqb (cell s) NotStarted
+      then mkSys Starting (S (ver s)) (pc s) (gp s) (permits s) (iscript s) (rscript s) (sscript s)
+                 (n_into s) (n_run s) (n_shut s) (aws s)
+      else s
+  | OStop =>
+      match cell s with
+      | NotStarted | Starting | Started =>
+          mkSys Stopping (S (ver s)) (pc s) (gp s) (permits s) (iscript s) (rscript s) (sscript s)
+                (n_into s) (n_run s) (n_shut s) (aws s)
+      | _ => s
+      end
+  | OGrant =>
+      mkSys (cell s) (ver s) (pc s) (gp s) (S (permits s)) (iscript s) (rscript s) (sscript s)
+            (n_into s) (n_run s) (n_shut s) (aws s)
+  | OBg =>
+      let r := bstep (cell s) (pc s) (gp s) (negb (Nat.eqb (permits s) 0))
+                     (iscript s) (hd RWaitStop (rscript s)) (sscript s) in
+      mkSys (b_cell r) (if sstate_eqb (b_cell r) (cell s) then ver s else S (ver s))
+            (b_pc r) (b_gp r) (if b_used r then pred (permits s) else permits s)
+            (iscript s) (if b_run r then tl (rscript s) else rscript s) (sscript s)
+            (n_into s + bool_nat (b_into r)) (n_run s + bool_nat (b_run r))
+            (n_shut s + bool_nat (b_shut r)) (aws s)
+  | OSpawn k =>
+      mkSys (cell s) (ver s) (pc s) (gp s) (permits s) (iscript s) (rscript s) (sscript s)
+            (n_into s) (n_run s) (n_shut s) (aws s ++ [mkA k ACheck (ver s)])
+  | OAw i =>
+      match nth_error (aws s) i with
+      | None => s
+      | Some a =>
+          mkSys (cell s) (ver s) (pc s) (gp s) (permits s) (iscript s) (rscript s) (sscript s)
+                (n_into s) (n_run s) (n_shut s) (set_nth41 (aws s) i (astep (cell s) (ver s) a))
+      end
+  end.
+
+Definition run41 (s : sys) (ops : list op) : sys := fold_left step41 ops s.
+
+Definition init_sys (io : ioutcome) (rs : list routcome) (so : soutcome) : sys :=
+  mkSys NotStarted 0 BInit false 0 io rs so 0 0 0 [].
+
+(* return value of the client calls: start() is Ok / stop() is true *)
+Definition op_ret (s : sys) (o : op) : Z :=
+  match o with
+  | OStart => if sstate_eqb (cell s) NotStarted then 1 else 0
+  | OStop => match cell s with NotStarted | Starting | Started => 1 | _ => 0 end
+  | _ => (-1)
+  end%Z.
+
+(* ---- what the harness does after every client op: everything runnable runs until it
+   blocks (B first, then every awaiter; awaiters do not influence B) ---- *)
+Fixpoint iter {A} (n : nat) (f : A -> A) (x : A) : A :=
+  match n with O => x | S n' => iter n' f (f x) end.
+
+Definition settle_ops (s : sys) : list op :=
+  repeat OBg (16 + 2 * permits s) ++ flat_map (fun i => [OAw i; OAw i; OAw i]) (seq 0 (length (aws s))).
+
+Definition settle41 (s : sys) : sys := run41 s (settle_ops s).
+
+(* ---- measure used by the liveness theorem: steps B still has to take once a stop was
+   requested (cell = Stopping), plus one if it waits at a gate without a permit ---- *)
+Definition remaining (p : bpc) : nat :=
+  match p with
+  | BDone => 0 | BFinal => 1 | BResume => 2 | BGateShut => 3 | BLoopHead => 4
+  | BRunWait => 5 | BSetStarted => 5 | BGateRun => 6 | BGateInto => 6
+  | BCheckStart => 2 | BWaitStart => 3 | BInit => 4
+  end.
+Definition at_gate (p : bpc) : bool :=
+  match p with BGateInto | BGateRun | BGateShut => true | _ => false end.
+Definition mu (s : sys) : nat :=
+  (2 * remaining (pc s) + bool_nat (at_gate (pc s) && Nat.eqb (permits s) 0))%nat.
+
+(* order of the program counters of B (the run loop is one level) *)
+Definition brank (p : bpc) : nat :=
+  match p with
+  | BInit => 0 | BWaitStart => 1 | BCheckStart => 2 | BGateInto => 3 | BSetStarted => 4
+  | BLoopHead | BGateRun | BRunWait => 5
+  | BGateShut => 6 | BResume => 7 | BFinal => 8 | BDone => 9
+  end.
+
+(* ---- the observation trace and its decidable checker (Pcheck of C41) ---- *)
+Record obs := mkO { o_ret : Z; o_cell : sstate; o_into : nat; o_run : nat; o_shut : nat;
+                    o_aw : list (option sstate) }.
+
+Definition aw_result (a : awaiter) : option sstate :=
+  match a_pc a with ADone r => Some r | _ => None end.
+
+Definition observe (ret : Z) (s : sys) : obs :=
+  mkO ret (cell s) (n_into s) (n_run s) (n_shut s) (map aw_result (aws s)).
+
+Fixpoint trace41 (s : sys) (ops : list op) : list obs :=
+  match ops with
+  | [] => []
+  | o :: r => let s' := settle41 (step41 s o) in observe (op_ret s o) s' :: trace41 s' r
+  end.
+
+Definition osstate_eqb (a b : option sstate) : bool :=
+  match a, b with
+  | None, None => true
+  | Some x, Some y => sstate_eqb x y
+  | _, _ => false
+  end.
+
+(* one awaiter slot between two consecutive observations: a result never changes *)
+Fixpoint aw_stable (a b : list (option sstate)) : bool :=
+  match a, b with
+  | [], _ => true
+  | x :: a', y :: b' => (match x with None => true | Some _ => osstate_eqb x y end) && aw_stable a' b'
+  | _ :: _, [] => false
+  end.
+
+(* consecutive observations *)
+Definition pair_okb (a b : obs) : bool :=
+  fwdb (o_cell a) (o_cell b) &&
+  Nat.leb (o_into a) (o_into b) && Nat.leb (o_run a) (o_run b) && Nat.leb (o_shut a) (o_shut b) &&
+  (* a stopped service never runs again *)
+  (negb (stopped (o_cell a)) ||
+   (sstate_eqb (o_cell a) (o_cell b) && Nat.eqb (o_into a) (o_into b) &&
+    Nat.eqb (o_run a) (o_run b) && Nat.eqb (o_shut a) (o_shut b))) &&
+  aw_stable (o_aw a) (o_aw b).
+
+(* one observation (awaiter kinds come from the input) *)
+Definition obs_okb (kinds : list akind) (o : obs) : bool :=
+  Nat.leb (o_into o) 1 && Nat.leb (o_shut o) 1 &&
+  Nat.eqb (length (o_aw o)) (length kinds) &&
+  forallb (fun kr : akind * option sstate =>
+             match kr with
+             | (AStop, Some r) => stopped r && sstate_eqb r (o_cell o)
+             | (AStop, None) => negb (stopped (o_cell o))     (* awaiters observe the stop *)
+             | (AStartOrStop, Some r) => negb (sstate_eqb r Starting)
+             | (AStartOrStop, None) => sstate_eqb (o_cell o) Starting
+             end) (combine kinds (o_aw o)).
+
+Fixpoint chainb (prev : obs) (l : list obs) : bool :=
+  match l with
+  | [] => true
+  | o :: r => pair_okb prev o && chainb o r
+  end.
+
+(* awaiter kinds present after each op *)
+Fixpoint kinds_after (ks : list akind) (ops : list op) : list (list akind) :=
+  match ops with
+  | [] => []
+  | OSpawn k :: r => (ks ++ [k]) :: kinds_after (ks ++ [k]) r
+  | _ :: r => ks :: kinds_after ks r
+  end.
+
+Fixpoint all_obs_okb (kss : list (list akind)) (l : list obs) : bool :=
+  match kss, l with
+  | [], [] => true
+  | ks :: kr, o :: r => obs_okb ks o && all_obs_okb kr r
+  | _, _ => false
+  end.
+
+(* bounded liveness on the trace: once the cell is Stopping, two more grants stop it *)
+Fixpoint live_okb (ops : list op) (l : list obs) (grants_since_stop : option nat) : bool :=
+  match ops, l with
+  | o :: r, b :: l' =>
+      let g := match grants_since_stop with
+               | Some n => Some (match o with OGrant => S n | _ => n end)
+               | None => None
+               end in
+      let g := match g with
+               | None => if Nat.leb 3 (srank (o_cell b)) then Some O else None
+               | s => s
+               end in
+      (match g with Some n => Nat.ltb n 2 || stopped (o_cell b) | None => true end) &&
+      live_okb r l' g
+  | _, _ => true
+  end.
+
+Definition obs0 : obs := mkO (-1) NotStarted 0 0 0 [].
+
+Definition trace_okb (ops : list op) (l : list obs) : bool :=
+  chainb obs0 l && all_obs_okb (kinds_after [] ops) l && live_okb ops l None.
+
+(* ---- T codecs ---- *)
+Definition sstate_T (s : sstate) : T :=
+  I match s with
+    | NotStarted => 0 | Starting => 1 | Started => 2 | Stopping => 3
+    | Stopped => 4 | StoppedWithError => 5
+    end.
+Definition T_sstate (t : T) : option sstate :=
+  match t with
+  | I 0%Z => Some NotStarted | I 1%Z => Some Starting | I 2%Z => Some Started
+  | I 3%Z => Some Stopping | I 4%Z => Some Stopped | I 5%Z => Some StoppedWithError
+  | _ => None
+  end.
+Definition T_io (t : T) : option ioutcome :=
+  match t with I 0%Z => Some IOk | I 1%Z => Some IErr | I 2%Z => Some IPanic | _ => None end.
+Definition T_ro (t : T) : option routcome :=
+  match t with
+  | I 0%Z => Some RContinue | I 1%Z => Some RStop | I 2%Z => Some RErrorContinue
+  | I 3%Z => Some RPanic | I 4%Z => Some RWaitStop | _ => None
+  end.
+Definition T_so (t : T) : option soutcome :=
+  match t with I 0%Z => Some SOk | I 1%Z => Some SErr | I 2%Z => Some SPanic | _ => None end.
+(* client-level ops of the harness: 0 start, 1 stop, 2 grant, 3 spawn await_stop,
+   4 spawn await_start_or_stop, 5 nothing (just settle and observe) *)
+Definition T_op (t : T) : option (option op) :=
+  match t with
+  | I 0%Z => Some (Some OStart) | I 1%Z => Some (Some OStop) | I 2%Z => Some (Some OGrant)
+  | I 3%Z => Some (Some (OSpawn AStop)) | I 4%Z => Some (Some (OSpawn AStartOrStop))
+  | I 5%Z => Some None
+  | _ => None
+  end.
+
+Definition ostate_T (o : option sstate) : T :=
+  match o with None => L [] | Some s => L [sstate_T s] end.
+Definition T_ostate (t : T) : option (option sstate) :=
+  match t with
+  | L [] => Some None
+  | L [x] => option_map Some (T_sstate x)
+  | _ => None
+  end.
+
+Definition obs_T (o : obs) : T :=
+  L [I (o_ret o); sstate_T (o_cell o); tN (N.of_nat (o_into o)); tN (N.of_nat (o_run o));
+     tN (N.of_nat (o_shut o)); L (map ostate_T (o_aw o))].
+Definition T_obs (t : T) : option obs :=
+  match t with
+  | L [I r; c; a; b; d; L aw] =>
+      match T_sstate c, getN a, getN b, getN d, mapM T_ostate aw with
+      | Some c, Some a, Some b, Some d, Some aw =>
+          Some (mkO r c (N.to_nat a) (N.to_nat b) (N.to_nat d) aw)
+      | _, _, _, _, _ => None
+      end
+  | _ => None
+  end.
+
+(* "nothing" (just settle and observe) is one step of B followed by the settle, which is
+   the same as the settle alone *)
+Definition op_of (o : option op) : op := match o with Some x => x | None => OBg end.
+
+(* input: (io (run outcomes) so (ops)) ; the initial settle happens before the first op *)
+Definition main41 (input observed : T) : T :=
+  match input with
+  | L [io; L rs; so; L ops] =>
+      match T_io io, mapM T_ro rs, T_so so, mapM T_op ops with
+      | Some io, Some rs, Some so, Some ops =>
+          let ops := map op_of ops in
+          let model := trace41 (settle41 (init_sys io rs so)) ops in
+          let pc := match observed with
+                    | L obs => match mapM T_obs obs with
+                               | Some l => trace_okb ops l
+                               | None => false
+                               end
+                    | _ => false
+                    end in
+          L [L (map obs_T model); tB pc]
+      | _, _, _, _ => tErr 2
+      end
+  | _ => tErr 1
+  end.
